@@ -12,6 +12,7 @@ ENGINES = {
  "msg": ("harness/msg.cpp", "QXmppMessage split into public/sensitive parts the way the encrypted send path and the OMEMO manager do it, and recovered from both parts"),
  "sasl": ("harness/sasl.cpp", "SaslManager / Sasl2Manager / QXmppSaslClient behind a mock SendDataInterface, driven by JSON lines; Python reference choice function and RFC implementations"),
  "split": ("harness/split.cpp", "loopback TCP feeder that delivers a byte stream to the real XmppSocket chunk by chunk and records the open/stanza/close events and the observed read sizes"),
+ "wire": ("harness/wire.cpp", "scripted fake XMPP server (QTcpServer/QSslSocket on 127.0.0.1:0, incremental XML reader, own XEP-0198 counters, TLS with a committed test certificate, relay mode) and real QXmppClient objects in one event loop; journal of every element in both directions, client signal, task completion and state query"),
  "stun": ("harness/stun.cpp", "QXmppStunMessage encode/decode + HMAC/CRC helpers driven by JSON lines; Python hmac/zlib oracle"),
 }
 CHECKS = {
@@ -56,6 +57,10 @@ CHECKS["C03"] = dict(engine="split", cat="exploration",
    text="40 streams (3 headers, 14 stanza kinds with 2/3/4-byte UTF-8, entities, quotes, whitespace keep-alives, with/without stream close) delivered over a real loopback TCP connection to the real XmppSocket: every 2-way split of every stream (exhaustive), one byte at a time, and 2000 (quick) / 200000 (thorough) random k-way splits biased to multi-byte characters, entities and tag interiors; the event sequence must equal that of the one-shot delivery",
    note="loopback TCP, one flush per chunk with the receiver drained in between (observed read sizes are recorded); Qt's socket and XML layers are trusted",
    tech="runtime monitoring: metamorphic oracle (chunking independence) with explicitly driven read boundaries, under ASan/UBSan")
+CHECKS["C08"] = dict(engine="wire", cat="exploration",
+   text="a fake server injects IQs into a real connected QXmppClient: every type (get/set/result/error/absent/garbage/empty) x every IQ payload kind of the fixtures (~95, plus unknown, none, several children) x 4 (quick) / 6 (thorough) senders x 3 extension sets (none, defaults, all bundled managers), plus an id duplicating an outstanding request and an absent id; replies are counted per id on the server transcript after an XEP-0198 fence, an idle settle and a second fence: exactly one result/error addressed back for get/set, none for result/error",
+   note="loopback TCP, both ends in one process; a reply later than 30 ms of silence after the fence would be missed; IQs with an invalid type make the client close the stream, which is allowed",
+   tech="runtime monitoring: exactly-once counting oracle over the recorded server-side transcript of a real client session, under ASan/UBSan")
 REASON_TODO = "check not built yet in this session (planned, see DESIGN.md §2)"
 
 def main():
